@@ -2,6 +2,7 @@ import PycsepVerif.Proto
 import PycsepVerif.RealOps
 import PycsepVerif.Model.Quadtree
 import PycsepVerif.Model.QuadCartesian
+import PycsepVerif.Model.QuadtreeGeo
 /-!
   Driver ops for C17 (all prefixed `c17_`).
     c17_single z                      → quadkeys of from_single_resolution(z), comma separated
@@ -12,6 +13,14 @@ import PycsepVerif.Model.QuadCartesian
     c17_area keys                     → per key the Float area in km² (bit pattern), R = 6371, s = tanh(π(1−2y))
     c17_cartesian keys                → `xs|ys|rows` of get_cartesian(arange(n)): unit west edges, unit south edges (latitude
                                         ascending), rows `;`-separated of cell indices; or `E:noCell`
+    c17_geoarea lon1 lat1 lon2 lat2   → bits of the CODE-SHAPED geographical_area_from_bounds in Float (args: bit patterns)
+    c17_cellarea keys                 → per key bits of get_cell_area through the code-shaped function on the Float Mercator bounds
+    c17_mercbounds keys               → per key `w:s:e:n` bits of mercLon / mercLat in Float (quadtree_grid_bounds row)
+    c17_bbox keys                     → `minXW:maxXE:maxYS:minYN` (unit-square rationals) or `E` (empty grid)
+    c17_origins keys                  → per key `xW:yS`
+    c17_locationof keys idx           → keys of get_location_of(idx) or `E` (IndexError); idx `i,j,…`
+    c17_savekeys keys                 → lines of save_quadtree joined by `|`
+    c17_loadkeys line|line|…          → keys parsed from text lines (`-` = no line) or `E` (a character outside 0..3)
   keys: `0213,31,...` or `-`;  pts: `x,y;x,y;...` (rationals) or `-`.
 -/
 namespace Drive.C17
@@ -36,7 +45,55 @@ def pi : Float := 3.141592653589793
 def sinLat (y : Rat) : Float := Float.tanh (pi * (1.0 - 2.0 * ratToFloat y))
 def areaKm2 (k : Key) : Float := area (2.0 * pi * (6371.0 * 6371.0)) sinLat k
 
-def handle : List String → Option String
+/-- the Float arithmetic of geographical_area_from_bounds / mercantile.bounds -/
+def floatGeo : GeoOps Float where
+  sub := (· - ·)
+  mul := (· * ·)
+  div := (· / ·)
+  lit := Float.ofNat
+  cos := Float.cos
+  sinh := Float.sinh
+  atan := Float.atan
+  pi := pi
+  beq := fun a b => a == b
+
+def showRow (b : Float × Float × Float × Float) : String :=
+  s!"{showFloat b.1}:{showFloat b.2.1}:{showFloat b.2.2.1}:{showFloat b.2.2.2}"
+
+def handle2 : List String → Option String
+  | ["c17_geoarea", a, b, c, d] => some (match parseFloat? a, parseFloat? b, parseFloat? c, parseFloat? d with
+      | some a, some b, some c, some d => showFloat (geoAreaFromBounds floatGeo a b c d)
+      | _, _, _, _ => "bad-op")
+  | ["c17_cellarea", keys] => some (match parseList? parseKey? keys with
+      | some ks => showList (fun k => showFloat (cellAreaGeo floatGeo ratToFloat k)) ks
+      | none => "bad-op")
+  | ["c17_mercbounds", keys] => some (match parseList? parseKey? keys with
+      | some ks => showList (fun k => showRow (boundsRow floatGeo ratToFloat k)) ks
+      | none => "bad-op")
+  | ["c17_bbox", keys] => some (match parseList? parseKey? keys with
+      | some ks => (match getBbox ks with
+        | some (a, b, c, d) => s!"{showRat a}:{showRat b}:{showRat c}:{showRat d}"
+        | none => "E")
+      | none => "bad-op")
+  | ["c17_origins", keys] => some (match parseList? parseKey? keys with
+      | some ks => showList (fun k => s!"{showRat (originOf k).x}:{showRat (originOf k).y}") ks
+      | none => "bad-op")
+  | ["c17_locationof", keys, idx] => some (match parseList? parseKey? keys, parseList? String.toNat? idx with
+      | some ks, some is => (match getLocationOf ks is with
+        | some out => showList showKey out
+        | none => "E")
+      | _, _ => "bad-op")
+  | ["c17_savekeys", keys] => some (match parseList? parseKey? keys with
+      | some ks => "|".intercalate ((saveLines ks).map String.ofList)
+      | none => "bad-op")
+  | ["c17_loadkeys", text] =>
+      let lines := if text = "-" then [] else (text.splitOn "|").map String.toList
+      some (match loadLines? lines with
+        | some ks => showList showKey ks
+        | none => "E")
+  | _ => none
+
+def handle1 : List String → Option String
   | ["c17_single", z] => some (match z.toNat? with
       | some z => showList showKey (singleRes z) | none => "bad-op")
   | ["c17_refine", thr, zoom, pts] => some (match thr.toNat?, zoom.toNat?, parsePts? pts with
@@ -65,4 +122,9 @@ def handle : List String → Option String
       | some ks => showList (fun k => showFloat (areaKm2 k)) ks
       | none => "bad-op")
   | _ => none
+
+def handle (args : List String) : Option String :=
+  match handle1 args with
+  | some r => some r
+  | none => handle2 args
 end Drive.C17
